@@ -41,6 +41,7 @@ class Frame:
         self.loop_ord = {}       # id(loop node) -> ordinal
         self.addr_taken = set()
         self.entry = None        # entry State snapshot (for old())
+        self.logical = {}
         self.params = {}         # parameter name -> entry value
 
 
@@ -313,12 +314,20 @@ class ClauseCtx:
         if name in f.params:
             v, ct = f.params[name]
             return self._wrap(v, ct)
-        if name in getattr(f, 'logical', {}):
+        if name in f.logical:
             return f.logical[name]
         raise ClauseError('unknown name %r in clause (renamed variable?)' % name)
 
     def is_ptr(self, v):
         return isinstance(v, Ptr)
+
+    def null(self):
+        return NULL
+
+    def ptr_add(self, p, d):
+        if p.region is None:
+            raise ClauseError('arithmetic on NULL in clause')
+        return Ptr(p.region, p.off + d)
 
     def ptr_null(self, v):
         if not isinstance(v, Ptr):
